@@ -191,7 +191,7 @@ Proof.
   destruct (check_cv O c s v SERVER_CONTEXT_STRING) eqn:Ecv;
     [apply check_cv_notok in Ecv; inversion H; subst; contradiction |].
   apply check_cv_pass in Ecv. destruct Ecv as [_ Hsig].
-  destruct (negb ((if f_verify c then o_cert_ok O (f_server_name c) (t_peer s) else 0) =? 0)); [discriminate |].
+  destruct (negb ((if f_verify c then o_cert_ok O (verify_name c) (t_peer s) else 0) =? 0)); [discriminate |].
   inversion H; subst s'. exists v. repeat split; auto.
 Qed.
 
